@@ -13,7 +13,14 @@ TLC:       CopyrightDoc_codec*.cfg  closed: every list of <= 4 / 5 lines over 8 
            RoundTrip, LicMemoBySynopsis -> RoundTrip, ParseMemoAliased -> CodecRepeat;
            CommaSeparates (separator look-alikes at the edge of a word are cut off) -> RoundTrip,
            RejectDrops (a refused assignment removes the old value) -> RoundTrip,
-           MayAcceptedSplits (a pattern with a white-space look-alike is taken and split by the reader) -> RoundTrip
+           MayAcceptedSplits (a pattern with a white-space look-alike is taken and split by the reader) -> RoundTrip,
+           ArgAliased (the text made for the caller's list object is remembered per OBJECT; the caller re-uses the object) -> RoundTrip
+           caller's objects (CopyrightDoc: CALLER'S OBJECTS): an argument is a VALUE -- the document holds what the list was
+           worth when the call was made.  The harness owns ONE list object per kind of argument (pattern lists, lists of
+           entries, line lists of the codec: caller_list) and hands that same object to create() / the setters /
+           format_multiline_lines in every call of every history -- across paragraphs, documents, cases, accepted and refused
+           calls --, changed IN PLACE in between (grown, shrunk, items replaced, slice-assigned); expected results are TLC's as
+           before (they never depended on object identity)
            word shapes: the payload ids of patterns carry a shape (CopyrightDoc!WShape: plain / edge = begins or
            ends with a separator look-alike such as , ; : | / punct = punctuation only); every CASE has words of
            every shape, concretized accordingly in EVERY concretization (the canonical one included)
@@ -115,6 +122,9 @@ variant: evidence per_action_counts "parse:*", "dump:*", "(api) *".
     entries, file object given to dump(f) / paragraph.dump(fd),       Upstream-Contact, dump, parse; fault position / exception
     file object / iterator given to Copyright())                     class / kind of object rotated); trace: ~15 % of the calls
   files = list / tuple / generator; entries = list / tuple          rotated in do_call
+  the SAME list object given to create(files) / files = / line-     primary concretization: always; rotated: 70 % of the lists
+    based header setters / format_multiline_lines again and again,    (the others: a never-changed list shared by equal values,
+    changed in place by the caller between the calls                  tuples, generators); evidence caller_objects_trace_leg
   Header(): format, upstream_name, upstream_contact, license        header kinds of the spec; every execution
   Header: source, disclaimer, comment, copyright, custom fields,    spec: header extra / fe / fi (kind "full"; random in
     files_excluded, files_included, known_format, current_format    traces); header setters also as calls of both phases
@@ -165,8 +175,8 @@ import core
 
 MANIFEST = dict(
     technique="TLA+ spec (CopyrightDoc: multiline codec over line classes, restricted-field converters, Deb822 dump/reader, document layer) model-checked by TLC in two closed configurations; every CASE (input + expected result) replayed into debian.copyright; recorded executions on random documents and line lists validated by TLC (TraceCopyrightDoc)",
-    text="TLC checks, for every list of up to 5 lines over 8 line-class symbols, that decoding the ' .' encoding returns the stated normal form, the original list under the statement's condition, a stable re-encoding and a value that Deb822 accepts and cannot split; and, for every header kind and every history of up to 3 add_*_paragraph calls over context paragraphs and one focus paragraph of every shape, that Load(Dump(D)) = D in strict mode and Dump(Load(Dump(D))) = Dump(D). Each of those cases is concretized (indentation with blanks and tabs, non-ASCII, '.'-prefixed words, ' .' lines, PGP-looking and field-looking lines, long lines, globs with escapes) and executed by the real Copyright / FilesParagraph / LicenseParagraph / License code with every verdict observable compared with TLC's expected result; random documents of 0..6 paragraphs with texts of up to 8 lines (built through the API or parsed in any paragraph order) and random line lists are recorded from the real code and validated by TLC. State leaking between calls or objects is covered in both directions: the specification carries what the first round trip produced as a history variable (memo) that the design must never read; every execution shares License objects and pattern lists between paragraphs and documents, edits the re-parsed document (TLC's edits / random edit sequences explained by ApplyEdits) and makes a second round trip, parses the first dump again after its first parse result was changed, re-examines the live objects of the previous case, and calls the codec twice with the returned list changed in between. Building histories also contain the calls the API refuses (values Deb822.validate_input or the list converters refuse, None for a mandatory field, item access to restricted fields, add_* of the wrong class): the specification (Rejects / ApplyCall) says that they raise and change nothing, TLC enumerates them inside the build histories and the edits, and recorded histories with accepted and refused calls are explained by folding ApplyCall. Calls whose acceptance the format does not settle -- a pattern, entry, single-line value or synopsis with a look-alike of white space inside (NO-BREAK SPACE, EM SPACE, IDEOGRAPHIC SPACE, U+001F, full-width commas ...) -- are ordinary steps of both phases with the law 'refused and nothing changed, or carried out and the value round-trips as one word' (MayReject / acc: TLC enumerates both outcomes, the observed one selects the expected document). Calls whose caller-supplied object fails (an iterable that raises at its first / a middle / its last step, a file object whose write() raises during dump, a file object or iterator that raises or ends early during Copyright()) raise, change nothing, and the history goes on. Words of pattern lists carry a shape in the model (plain / separator look-alike at an edge / punctuation only) so that every case has all of them; documents are also laid out so that line ends, field ends, paragraph separators and multi-byte characters fall on 2^k block boundaries and are read through every kind of file object (short reads, unbuffered, gzip/bz2/lzma, spooled).",
-    note="Small-scope: closed over the stated bounds; characters inside a line are sampled (seeded), not enumerated. Domain (DESIGN D1, D3): no str.splitlines boundary inside a line, license texts do not end in an empty line, the codec is not given [''], no trailing white space, copyright continuation lines are indented and non-blank; empty synopsis, white-space-only / lone-dot lines in documents are executed as unspecified. Trusted: TLC, the concretizer, the independent line classifier, the projections. A call the specification refuses but the code carries out makes that execution unspecified (no verdict). A call the format does not settle (separator look-alike inside a value) may be refused or carried out; carried out, its value belongs to the document. Look-alikes at the edges of values are unspecified. Corrupted control traces and eight spec-level negative controls are required to fail in every run.",
+    text="TLC checks, for every list of up to 5 lines over 8 line-class symbols, that decoding the ' .' encoding returns the stated normal form, the original list under the statement's condition, a stable re-encoding and a value that Deb822 accepts and cannot split; and, for every header kind and every history of up to 3 add_*_paragraph calls over context paragraphs and one focus paragraph of every shape, that Load(Dump(D)) = D in strict mode and Dump(Load(Dump(D))) = Dump(D). Each of those cases is concretized (indentation with blanks and tabs, non-ASCII, '.'-prefixed words, ' .' lines, PGP-looking and field-looking lines, long lines, globs with escapes) and executed by the real Copyright / FilesParagraph / LicenseParagraph / License code with every verdict observable compared with TLC's expected result; random documents of 0..6 paragraphs with texts of up to 8 lines (built through the API or parsed in any paragraph order) and random line lists are recorded from the real code and validated by TLC. State leaking between calls or objects is covered in both directions: the specification carries what the first round trip produced as a history variable (memo) that the design must never read; every execution shares License objects and pattern lists between paragraphs and documents, edits the re-parsed document (TLC's edits / random edit sequences explained by ApplyEdits) and makes a second round trip, parses the first dump again after its first parse result was changed, re-examines the live objects of the previous case, and calls the codec twice with the returned list changed in between. Building histories also contain the calls the API refuses (values Deb822.validate_input or the list converters refuse, None for a mandatory field, item access to restricted fields, add_* of the wrong class): the specification (Rejects / ApplyCall) says that they raise and change nothing, TLC enumerates them inside the build histories and the edits, and recorded histories with accepted and refused calls are explained by folding ApplyCall. Calls whose acceptance the format does not settle -- a pattern, entry, single-line value or synopsis with a look-alike of white space inside (NO-BREAK SPACE, EM SPACE, IDEOGRAPHIC SPACE, U+001F, full-width commas ...) -- are ordinary steps of both phases with the law 'refused and nothing changed, or carried out and the value round-trips as one word' (MayReject / acc: TLC enumerates both outcomes, the observed one selects the expected document). Calls whose caller-supplied object fails (an iterable that raises at its first / a middle / its last step, a file object whose write() raises during dump, a file object or iterator that raises or ends early during Copyright()) raise, change nothing, and the history goes on. The lists handed to create() / the setters / the codec are the harness' own re-used list objects, changed in place between the calls (a library that keeps or recognises the caller's object shows the value of another call; spec-level control ArgAliased). Words of pattern lists carry a shape in the model (plain / separator look-alike at an edge / punctuation only) so that every case has all of them; documents are also laid out so that line ends, field ends, paragraph separators and multi-byte characters fall on 2^k block boundaries and are read through every kind of file object (short reads, unbuffered, gzip/bz2/lzma, spooled).",
+    note="Small-scope: closed over the stated bounds; characters inside a line are sampled (seeded), not enumerated. Domain (DESIGN D1, D3): no str.splitlines boundary inside a line, license texts do not end in an empty line, the codec is not given [''], no trailing white space, copyright continuation lines are indented and non-blank; empty synopsis, white-space-only / lone-dot lines in documents are executed as unspecified. Trusted: TLC, the concretizer, the independent line classifier, the projections. A call the specification refuses but the code carries out makes that execution unspecified (no verdict). A call the format does not settle (separator look-alike inside a value) may be refused or carried out; carried out, its value belongs to the document. Look-alikes at the edges of values are unspecified. Corrupted control traces and nine spec-level negative controls are required to fail in every run.",
     design="5 (C17)")
 
 D1_CHARS = "\n\r\v\f\x1c\x1d\x1e\x85\u2028\u2029"
@@ -179,7 +189,9 @@ NEG_CONTROLS = [("codec", "NoDotEscape", "EncodedSafe"), ("doc", "NoDotEscape", 
                 # separator look-alikes at the edges of a word; a refused assignment that removes the old value
                 ("doc", "CommaSeparates", "RoundTrip"), ("doc", "RejectDrops", "RoundTrip"),
                 # a call the format does not settle is carried out and the reader splits the word at the look-alike
-                ("doc", "MayAcceptedSplits", "RoundTrip")]
+                ("doc", "MayAcceptedSplits", "RoundTrip"),
+                # the text made for the caller's (re-used, meanwhile changed) list object is remembered per object
+                ("doc", "ArgAliased", "RoundTrip")]
 
 # ------------------------------------------------------------------ concretization pools
 # bodies of Plain / Indented text lines: start with a non-blank, are not a lone '.', no trailing blank
@@ -602,7 +614,7 @@ def exec_codec(lines, vr=None):
     from debian import copyright as C
     o = {"enc": None, "out": None, "exc": "", "msg": "", "out2": None, "out3": None, "kept": True,
          "sout": None, "ssame": True}
-    arg = list(lines)
+    arg = caller_list("lines", lines)           # (the caller's own list of lines: re-used, changed in place between the calls)
     kw = vr is not None and vr.random() < 0.3
     try:
         o["enc"] = C.format_multiline_lines(lines=arg) if kw else C.format_multiline_lines(arg)
@@ -633,6 +645,43 @@ def exec_codec(lines, vr=None):
 # inputs shared between documents (the same License object / the same pattern list object is handed
 # to the code under test again and again; the code must neither change them nor remember them)
 _SHARED = {"repo": None, "lic": {}, "pats": {}}
+# the CALLER'S OWN list objects (spec: CALLER'S OBJECTS): one list per kind of argument, handed to create() / the
+# setters / the codec again and again -- across calls, paragraphs, documents and cases -- and changed IN PLACE to
+# the value of the next call (grown, shrunk, items replaced).  What a call stores is what the list was worth when
+# the call was made; a library that keeps the object, or recognises it the next time, shows the value of an
+# earlier (or later) call.  n = number of calls that got the object, mut = number of in-place changes.
+_CALLER = {"pats": [], "entries": [], "lines": [], "n": 0, "mut": 0}
+
+
+def caller_list(kind, values):
+    """the caller's list object of that kind, changed in place to hold `values`"""
+    buf, values = _CALLER[kind], list(values)
+    _CALLER["n"] += 1
+    if buf == values:
+        return buf                                  # (the same value twice: the same object, untouched)
+    _CALLER["mut"] += 1
+    k = 0
+    while k < len(buf) and k < len(values) and buf[k] == values[k]:
+        k += 1
+    if k == len(buf):
+        if len(values) == k + 1:
+            buf.append(values[k])                   # grown by one / by several
+        else:
+            buf.extend(values[k:])
+    elif k == len(values):
+        del buf[k:]                                 # shrunk
+    elif len(buf) == len(values):
+        for j in range(k, len(values)):             # items replaced one by one
+            if buf[j] != values[j]:
+                buf[j] = values[j]
+    elif (_CALLER["mut"] % 2) == 0:
+        buf[:] = values
+    else:
+        del buf[:]
+        buf += values
+    if buf != values:
+        raise core.MachineryError("caller_list: %r != %r" % (buf, values))
+    return buf
 
 
 def _shared_reset(C):
@@ -660,7 +709,12 @@ def _mk_lic(C, syn, text, vr=None):
     return _SHARED["lic"][key]
 
 
-def _mk_pats(pats):
+def _mk_pats(pats, vr=None):
+    """the list of patterns handed to create() / the files setter: the caller's own, re-used and meanwhile
+    changed list object (always in the primary concretization, 70 % of the rotated ones), or a list that is
+    shared by every call with that value and never changed"""
+    if vr is None or vr.random() < 0.7:
+        return caller_list("pats", pats)
     key = tuple(pats)
     if key not in _SHARED["pats"]:
         _SHARED["pats"][key] = list(pats)
@@ -683,12 +737,15 @@ def _mk_para(C, op, vr=None):
     lic = _mk_lic(C, op["syn"], op["text"], vr)
     v = vr.choice(["pos", "pos", "kw", "setters", "ctor"]) if vr is not None else "pos"
     if op["kind"] == "Files":
-        pats = _mk_pats(op["pats"])
+        pats = _mk_pats(op["pats"], vr)
         if v == "kw":
             p = C.FilesParagraph.create(files=pats, copyright=op["copy"], license=lic)
         elif v == "setters":
-            p = C.FilesParagraph.create(["placeholder"], "placeholder", C.License("PLACEHOLDER", "placeholder\n text"))
+            # (the placeholder is the caller's list too: it is changed to the real value before the setter gets it)
+            p = C.FilesParagraph.create(caller_list("pats", ["placeholder"]) if pats is _CALLER["pats"] else ["placeholder"],
+                                        "placeholder", C.License("PLACEHOLDER", "placeholder\n text"))
             p.license = lic
+            pats = _mk_pats(op["pats"]) if pats is _CALLER["pats"] else pats
             p.files = pats
             p.copyright = op["copy"]
         else:
@@ -1130,7 +1187,7 @@ def do_call(C, c, p, e, vr=None):
     holder = []
     try:
         if k == "files":
-            v = _mk_pats(e["pats"]) if vr is None or vr.random() < 0.6 else (tuple(e["pats"]) if vr.random() < 0.5 else (x for x in list(e["pats"])))
+            v = _mk_pats(e["pats"], vr) if vr is None or vr.random() < 0.6 else (tuple(e["pats"]) if vr.random() < 0.5 else (x for x in list(e["pats"])))
             p.files = v
         elif k == "copy":
             p.copyright = e["copy"]
@@ -1141,7 +1198,8 @@ def do_call(C, c, p, e, vr=None):
         elif k == "name":
             p.upstream_name = e["copy"]
         elif k == "entries":
-            setattr(p, ENT_ATTR[e["f"]], list(e["pats"]) if vr is None or vr.random() < 0.6 else tuple(e["pats"]))
+            v = caller_list("entries", e["pats"]) if vr is None or vr.random() < 0.6 else tuple(e["pats"])
+            setattr(p, ENT_ATTR[e["f"]], v)
         elif k == "none":
             setattr(p, NONE_ATTR[e["f"]], None)
         elif k == "item":
@@ -1310,13 +1368,13 @@ def exec_doc(hdr, ops, start="api", form="lines", dumpform="str", edits=None, vs
             if hdr.get("name") is not None:
                 h.upstream_name = hdr["name"]
             if hdr.get("uc"):
-                h.upstream_contact = list(hdr["uc"])
+                h.upstream_contact = caller_list("entries", hdr["uc"])
             if hdr.get("lic") is not None:
                 h.license = _mk_lic(C, hdr["lic"][0], hdr["lic"][1], vr)
             if hdr.get("fe"):
-                h.files_excluded = list(hdr["fe"])
+                h.files_excluded = caller_list("entries", hdr["fe"])
             if hdr.get("fi"):
-                h.files_included = tuple(hdr["fi"])
+                h.files_included = tuple(hdr["fi"]) if vr is not None and vr.random() < 0.5 else caller_list("entries", hdr["fi"])
             _set_extra(h, hdr.get("extra"), header=True)
             if vr is not None and vr.random() < 0.3:     # a Header built over a Deb822 object, installed by the setter
                 c.header = C.Header(deb822.Deb822(_para_text(h, vr)))
@@ -3141,7 +3199,7 @@ def run(ctx):
     ]
     procs = 6 if quick else 8
     # quick: one control per switch; thorough: all five and the all-off runs
-    negs = [NEG_CONTROLS[1], NEG_CONTROLS[2], NEG_CONTROLS[5], NEG_CONTROLS[6], NEG_CONTROLS[7], NEG_CONTROLS[8], NEG_CONTROLS[9], NEG_CONTROLS[10]] if quick else NEG_CONTROLS
+    negs = [NEG_CONTROLS[1], NEG_CONTROLS[2], NEG_CONTROLS[5], NEG_CONTROLS[6], NEG_CONTROLS[7], NEG_CONTROLS[8], NEG_CONTROLS[9], NEG_CONTROLS[10], NEG_CONTROLS[11]] if quick else NEG_CONTROLS
     import multiprocessing
     # the replay processes are forked before any thread exists
     _SCRATCH["dir"] = ctx.work               # (before the fork: the pool processes use it too)
@@ -3181,6 +3239,8 @@ def _run(ctx, quick, cfg_codec, cfg_doc, negs, mp_pool, procs):
             ctx.transitions += r.generated
         finish_traces()
         ctx.extra["spec_negative_controls"] = [f.result() for f in f_negs]
+        # (the trace leg of this process; the pool processes of the replay leg do the same with their own objects)
+        ctx.extra["caller_objects_trace_leg"] = {"calls_given_the_callers_own_list": _CALLER["n"], "changed_in_place_before_the_call": _CALLER["mut"]}
         pac = ctx.extra.get("per_action_counts", {})
         ctx.extra["file_object_kinds"] = {
             desc: pac.get(form if form.startswith("dump:") else "parse:" + form, 0)
